@@ -7,6 +7,7 @@ documented design (registered-source set; the 14-step RDAC table).
 from mc import env
 from mc import explore
 from mc.report import Report, exc_sig
+from mc.canon import canon
 
 from okdmr.dmrlib.protocols.hytera.p2p_datagram_protocol import P2PDatagramProtocol
 from okdmr.dmrlib.protocols.hytera.rdac_datagram_protocol import RDACDatagramProtocol
@@ -21,6 +22,11 @@ def _stub_read_snmp_values(self, *a, **k):
     """network I/O replaced at run time, as the property prescribes"""
     SNMP_CALLS.append(self.address_in)
     return {}
+
+
+# the complete structural state of the real handler + storage is part of every state key (hidden state must not be merged
+# away); the transport (output log of the last step) and the completion callback (back reference to the System) are not state
+IMPL_SKIP = frozenset({"transport", "callback", "_io", "_parent", "_root"})
 
 
 class RecTransport:
@@ -211,7 +217,7 @@ class P2PSystem(explore.System):
     def key(self):
         snap = storage_snapshot(self.storage, P2P_ATTRS)
         recs = tuple((d["address_in"], d["address_out"], bool(d["attrs"]["p2p_is_registered"]), d["dmr_id"], d["callsign"]) for d in snap.values())
-        return (recs, tuple(sorted(self.registered)))
+        return (recs, tuple(sorted(self.registered)), repr(canon(self.impl, skip=IMPL_SKIP)))
 
 
 class P2PSystem4(P2PSystem):
@@ -403,7 +409,8 @@ class RDACSystem(explore.System):
     def key(self):
         snap = storage_snapshot(self.storage, RDAC_ATTRS)
         recs = tuple(sorted((d["address_in"], d["dmr_id"], d["callsign"], d["serial"], tuple(sorted((k, repr(v)) for k, v in d["attrs"].items()))) for d in snap.values()))
-        return (tuple(sorted(self.impl.step.items())), tuple(sorted(self.mstep.items())), tuple(sorted(self.mdone.items())), recs, len(self.done))
+        return (tuple(sorted(self.impl.step.items())), tuple(sorted(self.mstep.items())), tuple(sorted(self.mdone.items())), recs, len(self.done),
+                repr(canon(self.impl, skip=IMPL_SKIP)))
 
 
 class RDACSystem3(RDACSystem):
